@@ -787,6 +787,7 @@ Section CacheProofs.
     match o with
     | OSet n _ _ _ | OGet n _ _ | OUnload n => In n K
     | OReopen mx => 0 <= mx
+    | OGetFault _ _ _ _ => False          (* faults are outside the histories of the refinement theorems *)
     end.
 
   Definition Rel (s : cache) (sp : sstate C) : Prop :=
@@ -797,7 +798,7 @@ Section CacheProofs.
                  spec_step C clen sp o = (fst (spec_step C clen sp o), x) /\
                  Inv s' /\ Rel s' (fst (spec_step C clen sp o)).
   Proof.
-    intros I [Rm Rf] Hok. destruct o as [n c t ch|n t ch|n|mx]; cbn [kvs_step spec_step op_ok] in *.
+    intros I [Rm Rf] Hok. destruct o as [n c t ch|n t ch|n|mx|n t ch e]; cbn [kvs_step spec_step op_ok] in *; [| | | |contradiction].
     - pose proof (update_inv s n c t ch I Hok) as U. rewrite <- Rm.
       destruct (clen c >? c_max C s) eqn:Egt.
       + rewrite U. exists s, (RErr MemoryErr). cbn [fst]. split; [reflexivity|]. split; [reflexivity|]. split; [exact I | split; assumption].
@@ -838,9 +839,54 @@ Section CacheProofs.
     cbn [fst snd] in *. subst ys. auto.
   Qed.
 
+  (* the entries whose contents the cache really holds *)
+  Definition held (es : list (name * entry)) : list (name * entry) :=
+    filter (fun ne => match e_fut C (snd ne) with FOk _ => negb (e_writing C (snd ne)) | _ => false end) es.
+
+  Lemma held_good es d : (forall m e, In (m, e) es -> good d m e) -> held es = es.
+  Proof.
+    induction es as [|[m e] es IH]; intros H; simpl; [reflexivity|].
+    destruct (H m e (or_introl eq_refl)) as (Hw & c & Hf & _). rewrite Hf, Hw. simpl. f_equal. apply IH. intros m' e' Hin. apply H. right. exact Hin.
+  Qed.
+
+  Lemma held_app a b : held (a ++ b) = held a ++ held b.
+  Proof. apply filter_app. Qed.
+
+  Lemma in_assoc_inv (es : list (name * entry)) m e : NoDup (keys es) -> In (m, e) es -> assoc es m = Some e.
+  Proof. apply in_assoc. Qed.
+
+  (* T16.fault — exactly what a failed load does: the get answers with the error; disk, heap, current_memory_usage and
+     the limit are unchanged; one entry is added for the key, holding the failed future and the on-disk size that was
+     never added to current_memory_usage.  Hence the accounting over the HELD entries is exactly as before. *)
+  Theorem failed_load_effect s n t ch e c :
+    Inv s -> lookup C (c_disk C s) n = Some (File c) -> clen c <= c_max C s -> assoc (c_entries C s) n = None ->
+    let s' := fst (get_file_fault C clen cmem dirsize true true s n t ch e) in
+    snd (get_file_fault C clen cmem dirsize true true s n t ch e) = inr e /\
+    c_disk C s' = c_disk C s /\ c_heap C s' = c_heap C s /\ c_mem C s' = c_mem C s /\ c_max C s' = c_max C s /\
+    c_entries C s' = c_entries C s ++ [(n, mkE C false (clen c) (FErr e))] /\
+    held (c_entries C s') = c_entries C s /\ c_mem C s' = sumb (held (c_entries C s')) /\ 0 <= c_mem C s' <= c_max C s'.
+  Proof.
+    intros I Hl Hle Ha. cbn zeta. unfold get_file_fault. rewrite Hl.
+    destruct (clen c >? c_max C s) eqn:Eg; [rewrite Z.gtb_ltb in Eg; apply Z.ltb_lt in Eg; lia|].
+    rewrite Ha. cbn [fst snd]. split; [reflexivity|].
+    unfold resolve, set_entry. cbn [c_disk c_heap c_mem c_max c_entries].
+    assert (Hent : map (fun ne : name * entry => match e_fut C (snd ne) with
+                        | FPending => (fst ne, mkE C (e_writing C (snd ne)) (e_bytes C (snd ne)) (FErr e)) | _ => ne end)
+                       (aset (c_entries C s) n (mkE C false (clen c) FPending))
+                   = c_entries C s ++ [(n, mkE C false (clen c) (FErr e))]).
+    { unfold aset. rewrite (assoc_aremove_eq _ _ Ha), map_app. simpl. f_equal.
+      rewrite <- (map_id (c_entries C s)) at 2. apply map_ext_in. intros [m em] Hin. simpl.
+      destruct (inv_good _ I m em (in_assoc_inv _ _ _ (inv_nd _ I) Hin)) as (_ & c0 & Hf & _). rewrite Hf. reflexivity. }
+    rewrite Hent. repeat (split; [reflexivity|]).
+    assert (Hh : held (c_entries C s ++ [(n, mkE C false (clen c) (FErr e))]) = c_entries C s).
+    { rewrite held_app. simpl. rewrite app_nil_r. apply (held_good _ (c_disk C s)).
+      intros m em Hin. apply (inv_good _ I). apply in_assoc_inv; [exact (inv_nd _ I) | exact Hin]. }
+    rewrite Hh. split; [reflexivity|]. split; [exact (inv_mem _ I) | exact (inv_le _ I)].
+  Qed.
+
   Lemma step_inv s o : Inv s -> op_ok o -> Inv (fst (kvs_step C clen cmem dirsize true true true s o)).
   Proof.
-    intros I Hok. destruct o as [n c t ch|n t ch|n|mx]; cbn [kvs_step op_ok] in *.
+    intros I Hok. destruct o as [n c t ch|n t ch|n|mx|n t ch e]; cbn [kvs_step op_ok] in *; [| | | |contradiction].
     - pose proof (update_inv s n c t ch I Hok) as U. destruct (clen c >? c_max C s).
       + rewrite U. exact I.
       + destruct U as (s' & Hu & Hi & _). rewrite Hu. exact Hi.
@@ -1212,6 +1258,7 @@ Definition op_okb {C} (K : list name) (o : op C) : bool :=
   match o with
   | OSet n _ _ _ | OGet n _ _ | OUnload n => existsb (name_eqb n) K
   | OReopen mx => Z.leb 0 mx
+  | OGetFault _ _ _ _ => false
   end.
 
 Lemma op_okb_ok {C} K (ops : list (op C)) : forallb (op_okb K) ops = true -> Forall (op_ok C K) ops.
@@ -1219,5 +1266,5 @@ Proof.
   rewrite forallb_forall, Forall_forall. intros H o Ho. specialize (H o Ho).
   assert (Hin : forall n, existsb (name_eqb n) K = true -> In n K).
   { intros n Hn. apply existsb_exists in Hn. destruct Hn as (k & Hk & E). apply name_eqb_eq in E. subst. exact Hk. }
-  destruct o; simpl in *; try (apply Hin; exact H). apply Z.leb_le. exact H.
+  destruct o; simpl in *; try (apply Hin; exact H); try discriminate. apply Z.leb_le. exact H.
 Qed.
